@@ -906,6 +906,27 @@ def emit_text(seg, tmpl, em):
                 raise GenError("%s: //@tagged without fn" % tmpl)
             name = toks[k + 1].text
             sh = parse_fn(rest, name)
+            # body of an already-contracted fn: first depth-0 `{` after the parameter list that does not
+            # follow a capitalised identifier (struct pattern in a `matches` clause)
+            if not sh.has_body:
+                j = sh.params_close + 1
+                while j < len(sh.toks):
+                    tj = sh.toks[j]
+                    if tj.kind == "punct" and tj.text in ("(", "["):
+                        j = match_close(sh.toks, j) + 1
+                        continue
+                    if tj.kind == "punct" and tj.text == "{":
+                        pv = sh.toks[j - 1]
+                        if pv.kind == "ident" and pv.text[:1].isupper():
+                            j = match_close(sh.toks, j) + 1
+                            continue
+                        sh.has_body = True
+                        sh.body_open = j
+                        sh.body_close = match_close(sh.toks, j)
+                        break
+                    if tj.kind == "punct" and tj.text == ";":
+                        break
+                    j += 1
             fnkey = "%s:%s" % (tmpl, name)
             l0 = base + i + 1
             endpos = sh.toks[sh.body_close].end if sh.has_body else sh.sig_end
